@@ -15,6 +15,11 @@
 //!               then the server is stopped (the connection is lost)
 //!            e  the peer accepts; once Connected is announced the channel is disabled and enabled again (the
 //!               connection ends without a wait; a successful connection must have reset the back-off)
+//!            g  (tcp) the peer accepts and, once Connected is announced, sends an MBAP header with an unknown
+//!               protocol id; it keeps the socket open until the wait is announced (the session ends with BadFrame)
+//!            m  (tcp) the peer accepts and never answers; once Connected is announced two requests with a 30 ms
+//!               response timeout are made (the tcp client is created with max_response_timeouts = 2); the
+//!               socket stays open until the wait is announced (the session ends with MaxTimeouts)
 //!            q  refused, and while the announced wait is pending a request is submitted (it fails with
 //!               NoConnection and must not shorten the wait)
 //!            d  refused, and while the announced wait is pending the channel is disabled and enabled again
@@ -432,7 +437,11 @@ async fn scenario(line: String, ip: Ipv4Addr, n: usize) -> String {
         };
         spawn_tls_client_task(host, 4, retry, cfg, DecodeLevel::nothing(), Some(Box::new(gate)))
     } else {
-        spawn_tcp_client_task(host, 4, retry, DecodeLevel::nothing(), Some(Box::new(gate)))
+        let options = ClientOptions::default()
+            .decode_level(DecodeLevel::nothing())
+            .max_queued_requests(4)
+            .max_response_timeouts(std::num::NonZeroUsize::new(2));
+        spawn_tcp_client_task_with_options(host, retry, Some(Box::new(gate)), options)
     };
     let _ = channel.enable().await;
     let mut log: Vec<(ClientState, Instant)> = Vec::new();
@@ -628,6 +637,49 @@ async fn scenario(line: String, ip: Ipv4Addr, n: usize) -> String {
                 }
                 let _ = channel.disable().await;
                 let _ = channel.enable().await;
+            }
+            'g' | 'm' => {
+                let l = listener.as_ref().unwrap();
+                let mut sock = match tokio::time::timeout(Duration::from_secs(3), l.accept()).await {
+                    Ok(Ok((sock, _))) => sock,
+                    _ => return "NOACCEPT".to_string(),
+                };
+                loop {
+                    match tokio::time::timeout(limit, ev_rx.recv()).await {
+                        Ok(Some((s, t))) => {
+                            log.push((s, t));
+                            if s == ClientState::Connected {
+                                break;
+                            }
+                        }
+                        _ => return "NOCONNECTED".to_string(),
+                    }
+                }
+                if outcome == 'g' {
+                    // transaction 1, protocol id 0xCAFE: FrameParseError::UnknownProtocolId
+                    let _ = sock.write_all(&[0, 1, 0xCA, 0xFE, 0, 2, 1, 3]).await;
+                } else {
+                    for k in 0..2 {
+                        let p = RequestParam::new(UnitId::new(1), Duration::from_millis(30));
+                        match tokio::time::timeout(Duration::from_secs(3), channel.read_holding_registers(p, AddressRange::try_from(0, 1).unwrap())).await {
+                            Ok(Err(RequestError::ResponseTimeout)) => {}
+                            other => return format!("NOTIMEOUT{k}:{other:?}"),
+                        }
+                    }
+                }
+                // the session must be ended by the client, not by the peer: keep the socket until the wait is announced
+                loop {
+                    match tokio::time::timeout(limit, ev_rx.recv()).await {
+                        Ok(Some((s, t))) => {
+                            log.push((s, t));
+                            if let ClientState::WaitAfterDisconnect(_) | ClientState::WaitAfterFailedConnect(_) = s {
+                                break;
+                            }
+                        }
+                        _ => return "NOWAIT".to_string(),
+                    }
+                }
+                drop(sock);
             }
             'c' => {
                 let l = listener.as_ref().unwrap();
